@@ -1605,6 +1605,19 @@ class Tensor:
             raise TypeError("iteration over a 0-d tensor")
         return iter(self[n] for n in range(len(self)))
 
+    def _is_registered_view(self) -> bool:
+        """True if this view, and every view between it and its base, is still listed
+        among the view-children of the tensor it was created from."""
+        tensor = self
+        while tensor._base is not None:
+            if tensor._creator is None:
+                return False
+            parent = tensor._creator.variables[0]
+            if not any(child is tensor for child in parent._view_children):
+                return False
+            tensor = parent
+        return True
+
     def _in_place_op(
         self,
         inplace_op: Type[Operation],
@@ -1707,7 +1720,10 @@ class Tensor:
         # We must do this here up front since we need to consume information
         # about ``self``
         self.null_grad(_clear_view_info=True)
-        if self._base is not None and not self._base._view_children:
+        if self._base is not None and not self._is_registered_view():
+            # A backward pass through the base released its views: this tensor
+            # is no longer one of them (whether or not the base acquired new
+            # views since) and is updated on its own
             self._base = None
 
         # The update invalidates the gradient of every tensor that shares memory
